@@ -148,6 +148,16 @@ func (e *sizeEngine) termOf(fn *ssa.Function, v ssa.Value, fi *FnInfo, f sizeFor
 		f.add("1", i)
 		return true
 	}
+	// the hand-written size of an unsigned varint: n := 1; for x >= 0x80 { x >>= 7; n++ } — exactly that loop
+	if arg, ok := uvarintSizeIdiom(v); ok {
+		a := e.expr(fn, arg, fi)
+		if k, err := parseInt(a); err == nil && k >= 0 {
+			f.add("1", uvarintLen(uint64(k)))
+		} else {
+			f.add("uvarint("+a+")", 1)
+		}
+		return true
+	}
 	switch x := v.(type) {
 	case *ssa.Call:
 		if b, ok := x.Call.Value.(*ssa.Builtin); ok && b.Name() == "len" {
@@ -503,4 +513,56 @@ func (e *sizeEngine) iterationForm(fn *ssa.Function, fi *FnInfo, l *Loop, entry 
 		}
 	}
 	return results[0]
+}
+
+// uvarintSizeIdiom: v is the result of `n := 1; for x >= 0x80 { x >>= 7; n++ }` (possibly inside an immediately-invoked
+// literal an inlined-back helper left behind); returns the value x starts from.
+func uvarintSizeIdiom(v ssa.Value) (ssa.Value, bool) {
+	v = strip(v)
+	n, ok := v.(*ssa.Phi)
+	if !ok || len(n.Edges) != 2 {
+		return nil, false
+	}
+	head := n.Block()
+	iff, ok := lastInstr(head).(*ssa.If)
+	if !ok {
+		return nil, false
+	}
+	cond, ok := iff.Cond.(*ssa.BinOp)
+	if !ok || cond.Op != token.GEQ {
+		return nil, false
+	}
+	k, ok := cond.Y.(*ssa.Const)
+	if !ok || k.Value == nil || k.Uint64() != 0x80 {
+		return nil, false
+	}
+	x, ok := cond.X.(*ssa.Phi)
+	if !ok || x.Block() != head || len(x.Edges) != 2 {
+		return nil, false
+	}
+	var start ssa.Value
+	okN, okX := false, false
+	for i := range n.Edges {
+		ne, xe := n.Edges[i], x.Edges[i]
+		if c1, isC := ne.(*ssa.Const); isC {
+			if c1.Value == nil || c1.Int64() != 1 {
+				return nil, false
+			}
+			start = xe
+			continue
+		}
+		if b, isB := ne.(*ssa.BinOp); isB && b.Op == token.ADD && b.X == ssa.Value(n) && ConstInt(1)(b.Y) {
+			okN = true
+		}
+		if b, isB := xe.(*ssa.BinOp); isB && b.Op == token.SHR && b.X == ssa.Value(x) {
+			if c7, isC := strip(b.Y).(*ssa.Const); isC && c7.Value != nil && c7.Uint64() == 7 {
+				okX = true
+			}
+		}
+	}
+	// the exit (condition false) must leave the loop: the value is used after it
+	if !okN || !okX || start == nil {
+		return nil, false
+	}
+	return start, true
 }
